@@ -597,3 +597,438 @@ Section Levels2.
     rewrite (decode_addr_canon _ _ _ Da), Cm. cbn [canon_ticker andb]. rewrite Lk. reflexivity.
   Qed.
 End Levels2.
+
+(* ---- strings.Trim on a quoted raw string ------------------------------------------------ *)
+Lemma trim_left_spec s : exists i, s = repeat 34 i ++ trim_left s.
+Proof.
+  induction s as [|c r [i IH]]; [exists 0%nat; reflexivity|]. cbn [trim_left].
+  destruct (Z.eqb_spec c 34) as [->|N]; [exists (S i); cbn [repeat app]; f_equal; exact IH|exists 0%nat; reflexivity].
+Qed.
+
+Lemma rev_repeat34 n : rev (repeat 34 n) = repeat 34 n.
+Proof.
+  induction n as [|n IH]; [reflexivity|]. cbn [repeat rev]. rewrite IH. symmetry. apply repeat_cons.
+Qed.
+
+Lemma trim_quotes_spec s : exists i j, s = repeat 34 i ++ trim_quotes s ++ repeat 34 j.
+Proof.
+  destruct (trim_left_spec s) as [i Hi]. destruct (trim_left_spec (rev (trim_left s))) as [j Hj].
+  exists i, j. unfold trim_quotes. rewrite Hi at 1. f_equal.
+  apply (f_equal (@rev Z)) in Hj. rewrite rev_involutive, rev_app_distr, rev_repeat34 in Hj. exact Hj.
+Qed.
+
+Lemma nbq_clean_app name : forall x, forallb clean_char name = true ->
+  no_bare_quote (name ++ x) = no_bare_quote x.
+Proof.
+  induction name as [|c name IH]; intros x C; [reflexivity|]. cbn [forallb] in C.
+  apply andb_true_iff in C as [Cc Cn]. unfold clean_char in Cc.
+  apply andb_true_iff in Cc as [Cc C92]. apply andb_true_iff in Cc as [_ C34].
+  apply negb_true_iff in C34, C92. cbn [app no_bare_quote]. rewrite C34, C92. apply IH. exact Cn.
+Qed.
+
+Lemma quoted_trim_is_raw raw name : no_bare_quote raw = true -> forallb clean_char name = true ->
+  name <> [] -> trim_quotes (34 :: raw ++ [34]) = name -> raw = name.
+Proof.
+  intros W C NE T. destruct (trim_quotes_spec (34 :: raw ++ [34])) as (i & j & E). rewrite T in E.
+  destruct name as [|c0 name0] eqn:En; [congruence|]. rewrite <- En in *.
+  assert (C0 : c0 <> 34).
+  { rewrite En in C. cbn [forallb] in C. apply andb_true_iff in C as [Cc _]. unfold clean_char in Cc.
+    apply andb_true_iff in Cc as [Cc _]. apply andb_true_iff in Cc as [_ C34]. apply negb_true_iff in C34.
+    apply Z.eqb_neq. exact C34. }
+  destruct i as [|[|i]].
+  - exfalso. rewrite En in E. cbn [repeat app] in E. injection E as E _. congruence.
+  - cbn [repeat app] in E. injection E as E.
+    (* raw ++ [34] = name ++ repeat 34 j *)
+    destruct j as [|j].
+    + exfalso. cbn [repeat] in E. rewrite app_nil_r in E.
+      apply (f_equal (@rev Z)) in E. rewrite rev_app_distr in E. cbn [rev app] in E.
+      assert (Cr : forallb clean_char (rev name) = true).
+      { rewrite forallb_forall in *. intros x Ix. apply C. apply in_rev. exact Ix. }
+      rewrite <- E in Cr. cbn [forallb] in Cr. apply andb_true_iff in Cr as [Cc _]. vm_compute in Cc. discriminate.
+    + assert (E2 : raw ++ [34] = (name ++ repeat 34 j) ++ [34]).
+      { rewrite E. rewrite <- app_assoc. f_equal. cbn [repeat]. apply repeat_cons. }
+      apply app_inj_tail in E2 as [E2 _]. subst raw.
+      rewrite (nbq_clean_app name _ C) in W. destruct j as [|j]; [apply app_nil_r|].
+      cbn [repeat no_bare_quote] in W. discriminate.
+  - exfalso. cbn [repeat app] in E. injection E as E. destruct raw as [|r0 raw0]; cbn [app] in E.
+    + injection E as E. destruct i; cbn [repeat app] in E; rewrite En in E; cbn [app] in E; discriminate.
+    + injection E as E _. subst r0. cbn [no_bare_quote] in W. discriminate.
+Qed.
+
+Lemma ticker_head_ok :
+  forallb (fun p => match snd p with
+                    | c :: _ => negb ((c =? 45) || is_digit c || (c =? 91) || (c =? 123) || (c =? 34) || (c =? 110) || (c =? 116) || (c =? 102))
+                    | [] => false end) ticker_table = true.
+Proof. vm_compute. reflexivity. Qed.
+
+Lemma ticker_lookup_head x t : ticker_lookup ticker_table x = Some t ->
+  exists c r, x = c :: r /\ c <> 45 /\ is_digit c = false /\ c <> 91 /\ c <> 123 /\ c <> 34 /\ c <> 110 /\ c <> 116 /\ c <> 102.
+Proof.
+  intros H. apply ticker_lookup_in in H. pose proof ticker_head_ok as T.
+  rewrite forallb_forall in T. specialize (T _ H). cbn [snd] in T.
+  destruct x as [|c r]; [discriminate|]. exists c, r. split; [reflexivity|].
+  apply negb_true_iff in T. repeat (apply orb_false_iff in T as [T ?]).
+  repeat split; try (apply Z.eqb_neq; assumption); assumption.
+Qed.
+
+(* the conversion field: only the exact quoted ticker name is accepted *)
+Lemma raw_ticker_canon v t : wf_jv v = true -> decode_raw_ticker v = Some t ->
+  canon_ticker v = true /\ 0 < t < PTickerMax.
+Proof.
+  unfold decode_raw_ticker, pticker_unmarshal. intros W.
+  destruct (print v) as [|c p] eqn:P; [cbn; discriminate|].
+  destruct (c =? 34) eqn:E34.
+  - destruct (length (trim_quotes (c :: p)) <? 3)%nat; [discriminate|]. intros L.
+    pose proof L as L0. apply ticker_lookup_spec in L as (Ex & R & Cl & L3).
+    apply Z.eqb_eq in E34. subst c.
+    destruct v; cbn [print] in P; try discriminate.
+    + (* a number cannot start with a quote *)
+      exfalso. cbn [wf_jv] in W. unfold num_ok in W. rewrite P in W. vm_compute in W. discriminate.
+    + injection P as <-. cbn [wf_jv] in W.
+      assert (NE : trim_quotes (34 :: raw ++ [34]) <> []) by (intros Z0; rewrite Z0 in L3; cbn in L3; lia).
+      pose proof (quoted_trim_is_raw raw _ W Cl NE eq_refl) as Er.
+      split; [|exact R]. cbn [canon_ticker]. rewrite Er. rewrite L0. reflexivity.
+  - destruct (length (c :: p) <? 3)%nat; [discriminate|]. intros L.
+    exfalso. apply ticker_lookup_head in L as (c' & r' & [= <- <-] & H45 & Hd & H91 & H123 & H34 & Hn & Ht & Hf).
+    destruct v; cbn [print] in P; try (injection P as Pc _; congruence).
+    cbn [wf_jv] in W. unfold num_ok in W. rewrite P in W. apply andb_true_iff in W as [W _].
+    apply orb_true_iff in W as [W|W]; [apply Z.eqb_eq in W; congruence|congruence].
+Qed.
+
+Lemma plen_obj_lookup ms n v : jlookup n ms = Some v -> plen (JObj ms) = (1 + wsum ms)%nat.
+Proof. intros H. rewrite plen_obj. destruct ms; [discriminate|reflexivity]. Qed.
+
+Lemma tx_validate_basic t : tx_validate t = true ->
+  0 < tx_type t /\ (tx_transfers t = [] -> tx_conv t <> 0) /\ (tx_transfers t <> [] -> tx_conv t <= 0).
+Proof.
+  intros H. destruct (tx_validate_spec t H) as (_ & Ht & [(N & C & _)|(E & C & _)]).
+  - split; [lia|]. split; [congruence|intros _; exact C].
+  - split; [lia|]. split; [intros _; exact C|congruence].
+Qed.
+
+Lemma forallb_wf_in l x : forallb wf_jv l = true -> In x l -> wf_jv x = true.
+Proof. intros H I. rewrite forallb_forall in H. apply H. exact I. Qed.
+
+Section Levels3.
+  Variable addr_of_text : bytes -> option Z.
+
+  Lemma decode_all_canon {A} (f : jv -> option A) (P : jv -> bool) items : forall l,
+    (forall x a, In x items -> f x = Some a -> P x = true) ->
+    decode_all f items = Some l -> forallb P items = true /\ length l = length items.
+  Proof.
+    induction items as [|x r IH]; intros l HP; cbn [decode_all].
+    - intros [= <-]. split; reflexivity.
+    - destruct (f x) as [a|] eqn:Fx; [|discriminate]. destruct (decode_all f r) as [ar|] eqn:Dr; [|discriminate].
+      intros [= <-]. destruct (IH ar) as [H1 H2]; [intros y b I; apply HP; right; exact I|reflexivity|].
+      cbn [forallb length]. rewrite H1, (HP x a (or_introl eq_refl) Fx), H2. split; reflexivity.
+  Qed.
+
+  (* level 3: Transaction, for a transaction that Validate accepts *)
+  Theorem decode_transaction_canonical j t : wf_jv j = true ->
+    decode_transaction addr_of_text j = Some t -> tx_validate t = true -> canon_tx j = true.
+  Proof.
+    destruct j as [| | | | | |ms]; try discriminate. cbn [wf_jv]. intros W.
+    unfold decode_transaction.
+    destruct (jlookup k_input ms) as [vi|] eqn:Ei; [|discriminate].
+    destruct (decode_typed_tuple addr_of_text vi) as [[[a n] ty]|] eqn:Di; [|discriminate].
+    destruct (match jlookup k_transfers ms with Some v => decode_array (decode_tuple addr_of_text) v | None => Some [] end)
+      as [trs|] eqn:Dt; [|discriminate].
+    destruct (match jlookup k_conversion ms with Some v => decode_raw_ticker v | None => Some 0 end)
+      as [cv|] eqn:Dc; [|discriminate].
+    set (meta := match jlookup k_metadata ms with Some v => (12 + plen v)%nat | None => 0%nat end).
+    match goal with |- (if (_ =? ?e)%nat then _ else _) = _ -> _ => set (expected := e) end.
+    destruct (Nat.eqb_spec (plen (JObj ms)) expected) as [L|]; [|discriminate].
+    intros [= <-] V. apply tx_validate_basic in V. cbn [tx_type tx_transfers tx_conv] in V.
+    destruct V as (Hty & Hc0 & Hc1).
+    rewrite (plen_obj_lookup _ _ _ Ei) in L.
+    assert (Pi : plain_name k_input) by names_plain.
+    assert (Pt : plain_name k_transfers) by names_plain.
+    assert (Pc : plain_name k_conversion) by names_plain.
+    assert (Am : asum names_tx ms = (contrib k_input ms + (contrib k_transfers ms + (contrib k_conversion ms + meta)))%nat).
+    { unfold names_tx. rewrite !asum_names_cons. unfold asum. cbn [map list_sum fold_right].
+      unfold meta, contrib at 4. destruct (jlookup k_metadata ms); cbn [k_metadata length]; lia. }
+    pose proof (asum_le_wsum _ nd_tx pl_tx ms) as Le.
+    unfold contrib in Am. rewrite Ei in Am. cbn [k_input length] in Am.
+    assert (Wi : forall v, jmember k_input ms = Some v -> wf_jv v = true) by (intros v; apply wf_member; exact W).
+    destruct trs as [|tr0 trs0] eqn:Etrs.
+    - (* conversion *)
+      specialize (Hc0 eq_refl).
+      destruct (jlookup k_conversion ms) as [vc|] eqn:Ec; [|injection Dc as <-; congruence].
+      assert (Wm : forall n v, jlookup n ms = Some v -> wf_jv v = true).
+      { intros n0 v0. clear -W. induction ms as [|[k w] r IH]; [discriminate|]. cbn [jlookup forallb snd] in *.
+        apply andb_true_iff in W as [W1 W2]. destruct (jlookup n0 r) eqn:J.
+        - intros [= <-]. apply IH; [exact W2|reflexivity].
+        - destruct (key_is n0 k); [intros [= <-]; exact W1|discriminate]. }
+      destruct (raw_ticker_canon vc cv (Wm _ _ Ec) Dc) as [Cc Rc].
+      assert (Eexp : expected = (meta + 24 + plen vi + plen vc)%nat).
+      { unfold expected. destruct (Z.ltb_spec 0 cv); [|lia]. destruct (Z.ltb_spec cv PTickerMax); [|lia]. reflexivity. }
+      cbn [k_conversion length] in Am.
+      destruct (jlookup k_transfers ms) as [vt|] eqn:Et; [cbn [k_transfers length] in Am; lia|].
+      assert (A : asum names_tx ms = wsum ms) by lia.
+      pose proof (asum_eq_canon _ nd_tx pl_tx _ A) as C.
+      rewrite (jlookup_jmember _ pl_tx _ _ Pi C) in Ei.
+      rewrite (jlookup_jmember _ pl_tx _ _ Pt C) in Et.
+      rewrite (jlookup_jmember _ pl_tx _ _ Pc C) in Ec.
+      destruct (decode_typed_tuple_canonical addr_of_text vi a n ty (Wi _ Ei) Di Hty) as [Ci _].
+      cbn [canon_tx]. fold names_tx. rewrite C, Ei, Et, Ec. cbn [opt_test andb]. rewrite Ci, Cc. reflexivity.
+    - (* transfers *)
+      assert (Hcv : cv <= 0) by (apply Hc1; discriminate).
+      destruct (jlookup k_transfers ms) as [vt|] eqn:Et; [|discriminate].
+      assert (Ec : jlookup k_conversion ms = None).
+      { destruct (jlookup k_conversion ms) as [vc|] eqn:Ec; [|reflexivity]. exfalso.
+        assert (Wc : wf_jv vc = true).
+        { clear -W Ec. induction ms as [|[k w] r IH]; [discriminate|]. cbn [jlookup forallb snd] in *.
+          apply andb_true_iff in W as [W1 W2]. destruct (jlookup k_conversion r) eqn:J.
+          - injection Ec as <-. apply IH; [exact W2|reflexivity].
+          - destruct (key_is k_conversion k); [injection Ec as <-; exact W1|discriminate]. }
+        destruct (raw_ticker_canon vc cv Wc Dc) as [_ Rc]. lia. }
+      rewrite Ec in Am. cbn [k_transfers length] in Am.
+      assert (Eexp : expected = (meta + 23 + plen vi + plen vt)%nat) by reflexivity.
+      assert (A : asum names_tx ms = wsum ms) by lia.
+      pose proof (asum_eq_canon _ nd_tx pl_tx _ A) as C.
+      rewrite (jlookup_jmember _ pl_tx _ _ Pi C) in Ei.
+      rewrite (jlookup_jmember _ pl_tx _ _ Pt C) in Et.
+      rewrite (jlookup_jmember _ pl_tx _ _ Pc C) in Ec.
+      destruct (decode_typed_tuple_canonical addr_of_text vi a n ty (Wi _ Ei) Di Hty) as [Ci _].
+      pose proof (wf_member _ _ _ W Et) as Wt.
+      destruct vt as [| | | | |items|]; try discriminate.
+      cbn [decode_array] in Dt. cbn [wf_jv] in Wt.
+      destruct (decode_all_canon (decode_tuple addr_of_text) canon_tuple items _
+                  (fun x a I D => decode_tuple_canonical addr_of_text x a (forallb_wf_in _ _ Wt I) D) Dt) as [Ca Ln].
+      destruct items as [|x xs]; [cbn in Ln; discriminate|].
+      cbn [canon_tx]. fold names_tx. rewrite C, Ei, Et, Ec. cbn [opt_test andb]. rewrite Ci, Ca. reflexivity.
+  Qed.
+End Levels3.
+
+Lemma dec_fold_mono s : forall acc, forallb is_digit s = true -> 0 <= acc ->
+  acc <= fold_left (fun a c => a * 10 + (c - 48)) s acc.
+Proof.
+  induction s as [|c s IH]; intros acc D A; cbn [fold_left forallb] in *; [lia|].
+  apply andb_true_iff in D as [Dc Ds]. unfold is_digit in Dc. apply andb_true_iff in Dc as [H1 H2].
+  apply Z.leb_le in H1, H2. specialize (IH (acc * 10 + (c - 48)) Ds ltac:(lia)). lia.
+Qed.
+
+Lemma canon_number_one raw : canon_number raw = true -> dec_value raw = 1 -> raw = [49].
+Proof.
+  unfold canon_number, dec_value, all_digits. intros C V. apply andb_true_iff in C as [D C].
+  destruct raw as [|c [|c2 r]]; [discriminate| |].
+  - cbn [fold_left] in V. f_equal. lia.
+  - exfalso. apply negb_true_iff in C. apply Z.eqb_neq in C.
+    cbn [forallb] in D. apply andb_true_iff in D as [Dc D]. apply andb_true_iff in D as [Dc2 Dr].
+    unfold is_digit in Dc, Dc2. apply andb_true_iff in Dc as [H1 H2]. apply andb_true_iff in Dc2 as [H3 H4].
+    apply Z.leb_le in H1, H2, H3, H4. cbn [fold_left] in V.
+    pose proof (dec_fold_mono r ((0 * 10 + (c - 48)) * 10 + (c2 - 48)) Dr ltac:(lia)). lia.
+Qed.
+
+Section Levels4.
+  Variable addr_of_text : bytes -> option Z.
+
+  Lemma decode_all_canon2 {A} (f : jv -> option A) (Q : A -> Prop) (P : jv -> bool) items : forall l,
+    (forall x a, In x items -> f x = Some a -> Q a -> P x = true) ->
+    decode_all f items = Some l -> Forall Q l -> forallb P items = true /\ length l = length items.
+  Proof.
+    induction items as [|x r IH]; intros l HP; cbn [decode_all].
+    - intros [= <-] _. split; reflexivity.
+    - destruct (f x) as [a|] eqn:Fx; [|discriminate]. destruct (decode_all f r) as [ar|] eqn:Dr; [|discriminate].
+      intros [= <-] F. inversion F as [|? ? Qa Qr]; subst.
+      destruct (IH ar) as [H1 H2]; [intros y b I; apply HP; right; exact I|reflexivity|exact Qr|].
+      cbn [forallb length]. rewrite H1, (HP x a (or_introl eq_refl) Fx Qa), H2. split; reflexivity.
+  Qed.
+
+  (* level 4: TransactionBatch, for a batch that ValidData accepts *)
+  Theorem decode_batch_canonical j b : wf_jv j = true ->
+    decode_batch_j addr_of_text j = Some b -> valid_data b = true -> canon_batch j = true.
+  Proof.
+    destruct j as [| | | | | |ms]; try discriminate. cbn [wf_jv]. intros W.
+    unfold decode_batch_j.
+    destruct (jlookup k_version ms) as [vv|] eqn:Ev; [|discriminate].
+    destruct (jlookup k_transactions ms) as [vt|] eqn:Et; [|discriminate].
+    destruct (decode_u64 vv) as [ver|] eqn:Dv; [|discriminate].
+    destruct (decode_array (decode_transaction addr_of_text) vt) as [txs|] eqn:Dt; [|discriminate].
+    destruct (Nat.eqb_spec (plen (JObj ms)) (28 + plen vv + plen vt)) as [L|]; [|discriminate].
+    intros [= <-] V. apply valid_data_spec in V. cbn [b_version b_txs] in V.
+    destruct V as (Hver & Hne & Hval & _).
+    rewrite (plen_obj_lookup _ _ _ Ev) in L.
+    assert (A : asum names_batch ms = wsum ms).
+    { unfold names_batch. rewrite !asum_names_cons. unfold contrib. rewrite Ev, Et.
+      unfold asum. cbn [map list_sum fold_right]. cbn [k_version k_transactions length]. lia. }
+    pose proof (asum_eq_canon _ nd_batch pl_batch _ A) as C.
+    assert (Pv : plain_name k_version) by names_plain.
+    assert (Pt : plain_name k_transactions) by names_plain.
+    rewrite (jlookup_jmember _ pl_batch _ _ Pv C) in Ev.
+    rewrite (jlookup_jmember _ pl_batch _ _ Pt C) in Et.
+    pose proof (wf_member _ _ _ W Ev) as Wv. pose proof (wf_member _ _ _ W Et) as Wt.
+    cbn [canon_batch]. fold names_batch. rewrite C, Ev, Et. cbn [andb].
+    (* version is the literal 1 *)
+    destruct vv as [| | |raw| | |]; try discriminate; [cbn [decode_u64] in Dv; injection Dv as <-; lia|].
+    destruct (decode_u64_canon _ _ Wv Dv) as [Cn _]. cbn [canon_amount] in Cn.
+    apply andb_true_iff in Cn as [Cn _].
+    cbn [decode_u64] in Dv. destruct (all_digits raw); [|discriminate].
+    destruct (dec_value raw <=? max_uint64); [|discriminate]. injection Dv as Dv.
+    rewrite (canon_number_one raw Cn ltac:(lia)).
+    (* transactions is a non-empty array of canonical transactions *)
+    destruct vt as [| | | | |items|]; try discriminate; [cbn [decode_array] in Dt; injection Dt as <-; congruence|].
+    cbn [decode_array] in Dt. cbn [wf_jv] in Wt.
+    destruct (decode_all_canon2 (decode_transaction addr_of_text) (fun t => tx_validate t = true) canon_tx items _
+                (fun x a I D Q => decode_transaction_canonical addr_of_text x a (forallb_wf_in _ _ Wt I) D Q) Dt Hval)
+      as [Ca Ln].
+    destruct items as [|x xs]; [destruct txs; [congruence|cbn in Ln; discriminate]|].
+    exact Ca.
+  Qed.
+
+  (* bytes level; the premise on parse_json (the parser keeps only well-formed raw texts) is the
+     one missing lemma *)
+  Theorem accepted_is_canonical_partial bytes b :
+    (forall j, parse_json bytes = Some j -> wf_jv j = true) ->
+    decode_batch addr_of_text bytes = Some b -> valid_data b = true -> canonical_bytes bytes = true.
+  Proof.
+    intros Wf. unfold decode_batch, canonical_bytes. destruct (parse_json bytes) as [j|] eqn:P; [|discriminate].
+    intros D V. exact (decode_batch_canonical j b (Wf j eq_refl) D V).
+  Qed.
+End Levels4.
+
+(* ---- the parser keeps only well-formed raw texts ----------------------------------------- *)
+Lemma is_hex_not_quote h : is_hex h = true -> (h =? 34) = false /\ (h =? 92) = false.
+Proof.
+  unfold is_hex, is_digit. intros H.
+  assert (R : (48 <= h <= 57) \/ (97 <= h <= 102) \/ (65 <= h <= 70)).
+  { apply orb_true_iff in H as [H|H]; [apply orb_true_iff in H as [H|H]|];
+      apply andb_true_iff in H as [H1 H2]; apply Z.leb_le in H1, H2; lia. }
+  split; apply Z.eqb_neq; lia.
+Qed.
+
+Lemma scan_string_nbq_n : forall n s, (length s <= n)%nat -> forall b rest,
+  scan_string s = Some (b, rest) -> no_bare_quote b = true.
+Proof.
+  induction n as [|n IH]; intros s Hn b rest.
+  - destruct s; [discriminate|cbn in Hn; lia].
+  - destruct s as [|c r]; [discriminate|]. cbn [length] in Hn. cbn [scan_string].
+    destruct (c =? 34) eqn:E34; [intros [= <- _]; reflexivity|].
+    destruct (c =? 92) eqn:E92.
+    + destruct r as [|e r1]; [discriminate|]. cbn [length] in Hn.
+      destruct (is_simple_escape e).
+      * destruct (scan_string r1) as [[b' rest']|] eqn:S1; [|discriminate]. intros [= <- _].
+        cbn [no_bare_quote]. rewrite E34, E92. apply (IH r1 ltac:(lia) _ _ S1).
+      * destruct (e =? 117); [|discriminate].
+        destruct r1 as [|h1 [|h2 [|h3 [|h4 r2]]]]; try discriminate. cbn [length] in Hn.
+        destruct (is_hex h1) eqn:X1; [|discriminate]. destruct (is_hex h2) eqn:X2; [|discriminate].
+        destruct (is_hex h3) eqn:X3; [|discriminate]. destruct (is_hex h4) eqn:X4; [|discriminate]. cbn [andb].
+        destruct (scan_string r2) as [[b' rest']|] eqn:S2; [|discriminate]. intros [= <- _].
+        destruct (is_hex_not_quote _ X1) as [A1 B1]. destruct (is_hex_not_quote _ X2) as [A2 B2].
+        destruct (is_hex_not_quote _ X3) as [A3 B3]. destruct (is_hex_not_quote _ X4) as [A4 B4].
+        cbn [no_bare_quote]. rewrite E34, E92, A1, B1, A2, B2, A3, B3, A4, B4. apply (IH r2 ltac:(lia) _ _ S2).
+    + destruct (c <? 32); [discriminate|].
+      destruct (scan_string r) as [[b' rest']|] eqn:S1; [|discriminate]. intros [= <- _].
+      cbn [no_bare_quote]. rewrite E34, E92. apply (IH r ltac:(lia) _ _ S1).
+Qed.
+
+Lemma scan_string_nbq s b rest : scan_string s = Some (b, rest) -> no_bare_quote b = true.
+Proof. apply (scan_string_nbq_n (length s)). lia. Qed.
+
+Lemma span_digits_digits s : forall d rest, span_digits s = (d, rest) -> all_digits d = true.
+Proof.
+  induction s as [|c r IH]; intros d rest; cbn [span_digits]; [intros [= <- _]; reflexivity|].
+  destruct (is_digit c) eqn:D; [|intros [= <- _]; reflexivity].
+  destruct (span_digits r) as [d' rest']. intros [= <- _]. unfold all_digits. cbn [forallb]. rewrite D.
+  apply (IH d' rest' eq_refl).
+Qed.
+
+Lemma all_digits_app_nondigit a x y : is_digit x = false -> all_digits (a ++ x :: y) = false.
+Proof. intros H. unfold all_digits. rewrite forallb_app. cbn [forallb]. rewrite H. apply andb_false_r. Qed.
+
+Lemma scan_number_ok s n rest : scan_number s = Some (n, rest) -> num_ok n = true.
+Proof.
+  unfold scan_number.
+  set (sp := match s with c :: r => if c =? 45 then ([c], r) else ([], s) | [] => ([], s) end).
+  assert (Hsg : fst sp = [] \/ fst sp = [45]).
+  { unfold sp. destruct s as [|c r]; [left; reflexivity|]. destruct (Z.eqb_spec c 45) as [->|]; [right|left]; reflexivity. }
+  destruct sp as [sg s1]. cbn [fst] in Hsg.
+  destruct (scan_int s1) as [[i s2]|] eqn:Si; [|discriminate].
+  destruct (scan_frac s2) as [[f s3]|] eqn:Sf; [|discriminate].
+  destruct (scan_exp s3) as [[e s4]|] eqn:Se; [|discriminate]. intros [= <- _].
+  (* shapes *)
+  assert (Hi : i = [48] \/ exists c d, i = c :: d /\ is_digit19 c = true /\ all_digits d = true).
+  { unfold scan_int in Si. destruct s1 as [|c r]; [discriminate|]. destruct (c =? 48); [injection Si as <- _; left; reflexivity|].
+    destruct (is_digit19 c) eqn:D19; [|discriminate]. destruct (span_digits r) as [d rest'] eqn:Sd.
+    injection Si as <- _. right. exists c, d. repeat split; auto. apply (span_digits_digits _ _ _ Sd). }
+  assert (Hf : f = [] \/ exists d, f = 46 :: d).
+  { unfold scan_frac in Sf. destruct s2 as [|c r]; [injection Sf as <- _; left; reflexivity|].
+    destruct (Z.eqb_spec c 46) as [->|]; [|injection Sf as <- _; left; reflexivity].
+    destruct (span_digits r) as [[|d0 d] rest']; [discriminate|]. injection Sf as <- _. right. eexists. reflexivity. }
+  assert (He : e = [] \/ exists c d, e = c :: d /\ is_digit c = false).
+  { unfold scan_exp in Se. destruct s3 as [|c r]; [injection Se as <- _; left; reflexivity|].
+    destruct ((c =? 101) || (c =? 69)) eqn:Ee; [|injection Se as <- _; left; reflexivity].
+    destruct (match r with g :: r' => if (g =? 43) || (g =? 45) then ([g], r') else ([], r) | [] => ([], r) end) as [sg' r1].
+    destruct (span_digits r1) as [[|d0 d] rest']; [discriminate|]. injection Se as <- _. right. exists c, (sg' ++ d0 :: d).
+    split; [reflexivity|]. apply orb_true_iff in Ee as [Ee|Ee]; apply Z.eqb_eq in Ee; subst c; reflexivity. }
+  unfold num_ok. destruct Hsg as [->| ->].
+  - cbn [app]. apply andb_true_iff. split.
+    + destruct Hi as [->|(c & d & -> & D19 & _)]; [reflexivity|]. cbn [app].
+      unfold is_digit19 in D19. unfold is_digit. apply andb_true_iff in D19 as [H1 H2]. apply Z.leb_le in H1, H2.
+      apply orb_true_iff. right. apply andb_true_iff. split; apply Z.leb_le; lia.
+    + destruct He as [->|(ce & de & -> & Nd)]; [|rewrite app_assoc, (all_digits_app_nondigit _ _ _ Nd); reflexivity].
+      rewrite app_nil_r. destruct Hf as [->|(df & ->)]; [|rewrite (all_digits_app_nondigit i 46 df eq_refl); reflexivity].
+      rewrite app_nil_r. destruct Hi as [->|(c & d & -> & D19 & Dd)]; [reflexivity|].
+      unfold is_digit19 in D19. apply andb_true_iff in D19 as [H1 H2]. apply Z.leb_le in H1, H2.
+      destruct (all_digits (c :: d)) eqn:Da; [|reflexivity]. unfold canon_number. rewrite Da. cbn [andb].
+      destruct d; [reflexivity|]. apply negb_true_iff. apply Z.eqb_neq. lia.
+  - cbn [app]. reflexivity.
+Qed.
+
+Lemma parse_wf_fuel : forall f,
+  (forall s v rest, parse_value f s = Some (v, rest) -> wf_jv v = true) /\
+  (forall s ms rest, parse_members f s = Some (ms, rest) -> forallb (fun m => wf_jv (snd m)) ms = true) /\
+  (forall s vs rest, parse_elems f s = Some (vs, rest) -> forallb wf_jv vs = true).
+Proof.
+  induction f as [|f (IHv & IHm & IHe)]; [repeat split; intros; discriminate|].
+  repeat split.
+  - intros s v rest. cbn [parse_value]. destruct (skip_ws s) as [|c r]; [discriminate|].
+    destruct (c =? 123).
+    { destruct (skip_ws r) as [|c' r']; [discriminate|]. destruct (c' =? 125); [intros [= <- _]; reflexivity|].
+      destruct (parse_members f (c' :: r')) as [[ms rest']|] eqn:Pm; [|discriminate]. intros [= <- _].
+      cbn [wf_jv]. apply (IHm _ _ _ Pm). }
+    destruct (c =? 91).
+    { destruct (skip_ws r) as [|c' r']; [discriminate|]. destruct (c' =? 93); [intros [= <- _]; reflexivity|].
+      destruct (parse_elems f (c' :: r')) as [[vs rest']|] eqn:Pe; [|discriminate]. intros [= <- _].
+      cbn [wf_jv]. apply (IHe _ _ _ Pe). }
+    destruct (c =? 34).
+    { destruct (scan_string r) as [[b rest']|] eqn:Ss; [|discriminate]. intros [= <- _].
+      cbn [wf_jv]. apply (scan_string_nbq _ _ _ Ss). }
+    destruct (c =? 116); [match goal with |- context [Json.strip_prefix ?l r] => destruct (Json.strip_prefix l r) end; [intros [= <- _]; reflexivity|discriminate]|].
+    destruct (c =? 102); [match goal with |- context [Json.strip_prefix ?l r] => destruct (Json.strip_prefix l r) end; [intros [= <- _]; reflexivity|discriminate]|].
+    destruct (c =? 110); [match goal with |- context [Json.strip_prefix ?l r] => destruct (Json.strip_prefix l r) end; [intros [= <- _]; reflexivity|discriminate]|].
+    destruct ((c =? 45) || is_digit c); [|discriminate].
+    destruct (scan_number (c :: r)) as [[n rest']|] eqn:Sn; [|discriminate]. intros [= <- _].
+    cbn [wf_jv]. apply (scan_number_ok _ _ _ Sn).
+  - intros s ms rest. cbn [parse_members]. destruct s as [|c r]; [discriminate|].
+    destruct (c =? 34); [|discriminate].
+    destruct (scan_string r) as [[k r1]|]; [|discriminate].
+    destruct (skip_ws r1) as [|c1 r2]; [discriminate|]. destruct (c1 =? 58); [|discriminate].
+    destruct (parse_value f r2) as [[v r3]|] eqn:Pv; [|discriminate].
+    destruct (skip_ws r3) as [|c3 r4]; [discriminate|].
+    destruct (c3 =? 125).
+    { intros [= <- _]. cbn [forallb snd]. rewrite (IHv _ _ _ Pv). reflexivity. }
+    destruct (c3 =? 44); [|discriminate].
+    destruct (parse_members f (skip_ws r4)) as [[ms' rest']|] eqn:Pm; [|discriminate]. intros [= <- _].
+    cbn [forallb snd]. rewrite (IHv _ _ _ Pv), (IHm _ _ _ Pm). reflexivity.
+  - intros s vs rest. cbn [parse_elems].
+    destruct (parse_value f s) as [[v r1]|] eqn:Pv; [|discriminate].
+    destruct (skip_ws r1) as [|c r2]; [discriminate|].
+    destruct (c =? 93).
+    { intros [= <- _]. cbn [forallb]. rewrite (IHv _ _ _ Pv). reflexivity. }
+    destruct (c =? 44); [|discriminate].
+    destruct (parse_elems f r2) as [[vs' rest']|] eqn:Pe; [|discriminate]. intros [= <- _].
+    cbn [forallb]. rewrite (IHv _ _ _ Pv), (IHe _ _ _ Pe). reflexivity.
+Qed.
+
+Theorem parse_json_wf s j : parse_json s = Some j -> wf_jv j = true.
+Proof.
+  unfold parse_json. destruct (parse_value (S (S (length s))) s) as [[v rest]|] eqn:P; [|discriminate].
+  destruct (skip_ws rest); [|discriminate]. intros [= <-].
+  destruct (parse_wf_fuel (S (S (length s)))) as [H _]. apply (H _ _ _ P).
+Qed.
+
+(* C20 (a), for ALL byte strings: what UnmarshalJSON + ValidData accept is canonical *)
+Theorem accepted_is_canonical addr_of_text bytes b :
+  decode_batch addr_of_text bytes = Some b -> valid_data b = true -> canonical_bytes bytes = true.
+Proof. apply accepted_is_canonical_partial. intros j. apply parse_json_wf. Qed.
